@@ -107,8 +107,8 @@ def gen_cases(rng, quick):
     exhaustive = [(2, 2), (2, 3), (3, 2), (3, 3), (2, 4), (3, 4)]
     for (n, m) in exhaustive:
         pats = list(all_patterns(n, m))
-        if quick and len(pats) > 10:
-            keep = sorted(rng.choice(len(pats), size=10, replace=False).tolist())
+        if quick and len(pats) > 8:
+            keep = sorted(rng.choice(len(pats), size=8, replace=False).tolist())
             # the complete pattern and the sparsest ones always
             pats = [pats[i] for i in keep] + [np.ones((n, m), dtype=bool)]
         for k, mask in enumerate(pats):
@@ -116,7 +116,7 @@ def gen_cases(rng, quick):
             grid = int_grid(rng, m, kind)
             x = np.round(rng.normal(size=(n, m)) * 64) / 64
             yield (f"exhaustive-{n}x{m}/{kind}", grid, x, mask, True)
-    n_rand = 10 if quick else 400
+    n_rand = 8 if quick else 400
     for k in range(n_rand):
         n = int(rng.integers(4, 13))
         m = int(rng.integers(5, 8 if quick else 10))
@@ -476,7 +476,7 @@ def run(rep, props, replay=None):
 
 
 RULE = ("n_obs 2..12 on grids of 2..9 points; every missingness pattern with >= 2 samples per curve and every grid point observed, "
-        "for 2x2, 2x3, 3x2, 3x3, 2x4, 3x4 (n_obs x grid; subsampled to 10 + the complete pattern per size in the quick tier), random "
+        "for 2x2, 2x3, 3x2, 3x3, 2x4, 3x4 (n_obs x grid; subsampled to 8 + the complete pattern per size in the quick tier), random "
         "patterns beyond (one in eight complete); integer grids (0..m-1, with gaps, days of the year) go through read_csv, [0,1] and "
         "non-uniform dyadic grids are hand-built; operations: to_long, mean LP/PS/interpolation, smooth LP (degree 1, 2)/PS (two "
         "settings)/interpolation, center LP/interpolation, norm (plain, squared standardised), noise_variance order 1/2, covariance "
